@@ -142,6 +142,8 @@ def _shards():
 
 SHARDS = _shards()
 def _quick(s):
+    if "hx" in s and TYPES[s["ti"]][0] == "lo":
+        return s["shape"] == 5 and (s["hx"], s["hy"], s["hc"], s["hin"], s["hz"]) in ((1, 0, 0, 0, 0), (1, 1, 0, 0, 0))     # a single object where a list of objects is expected
     if "hx" in s:
         return TYPES[s["ti"]][0] == "o" and s["shape"] == 5 and (s["hx"], s["hy"], s["hc"], s["hin"], s["hz"]) in ((1, 0, 0, 0, 0), (0, 1, 0, 0, 0), (1, 1, 0, 0, 0), (1, 0, 1, 0, 0), (1, 0, 0, 1, 0), (1, 0, 0, 0, 1), (0, 0, 0, 1, 0))
     return TYPES[s["ti"]][0] in ("i", "nli", "lli", "o", "c", "f") and (s["di"] == 0 or s["shape"] == 0)
